@@ -1,44 +1,899 @@
+// C19: the BUILD parser is total and fails only with positioned errors.
+// Implementation side of the correspondence (real asp lexer + Parser.ParseData through the verif hook
+// src/parse/asp/verif_c19.go) and the model-independent property oracle.
 package main
 
 import (
+	"bufio"
+	"bytes"
+	"crypto/sha1"
+	"encoding/base64"
+	"encoding/json"
 	"fmt"
+	"io"
 	"os"
+	"os/exec"
+	"path/filepath"
+	"sort"
 	"strconv"
 	"strings"
 	"time"
+	"unicode"
+	"unicode/utf8"
+
+	gologging "gopkg.in/op/go-logging.v1"
+
+	"verifharness/lib"
 
 	"github.com/thought-machine/please/src/parse/asp"
 )
 
-func main() {
-	kind := os.Args[1]
-	n, _ := strconv.Atoi(os.Args[2])
-	var data string
-	switch kind {
-	case "paren":
-		data = "x = " + strings.Repeat("(", n) + "\n"
-	case "brack":
-		data = "x = " + strings.Repeat("[", n) + "\n"
-	case "nl":
-		data = strings.Repeat("\n", n) + "x = 1\n"
-	case "cr":
-		data = strings.Repeat("\r", n) + "x = 1\n"
-	case "comment":
-		data = strings.Repeat("#\n", n) + "x = 1\n"
-	case "plus":
-		data = "x = 1" + strings.Repeat(" + 1", n) + "\n"
-	case "neg":
-		data = "x = " + strings.Repeat("- ", n) + "1\n"
-	case "strs":
-		data = "x = " + strings.Repeat("'a' ", n) + "\n"
-	case "if":
-		data = "x = 1" + strings.Repeat(" if 1 else 1", n) + "\n"
-	case "dot":
-		data = "x = a" + strings.Repeat(".a", n) + "\n"
-	case "lit":
-		data = os.Args[3]
+// ---------------------------------------------------------------------------------------------
+// inputs
+
+// Input is one BUILD file. Small ones carry their bytes (base64, so that NULs and invalid UTF-8
+// survive JSON); large regular ones are prefix + unit*count + suffix.
+type Input struct {
+	Gen    string `json:"gen"`
+	B64    string `json:"b64,omitempty"`
+	Text   string `json:"text,omitempty"` // %q rendering of the first bytes, for the reader only
+	Prefix string `json:"prefix,omitempty"`
+	Unit   string `json:"unit,omitempty"`
+	Count  int    `json:"count,omitempty"`
+	Suffix string `json:"suffix,omitempty"`
+}
+
+func mk(gen string, data []byte) Input {
+	t := data
+	if len(t) > 160 {
+		t = t[:160]
 	}
-	t := time.Now()
-	out := asp.VerifC19Parse([]byte(data))
-	fmt.Printf("%s %d: %+v in %v\n", kind, n, out, time.Since(t))
+	return Input{Gen: gen, B64: base64.StdEncoding.EncodeToString(data), Text: strconv.Quote(string(t))}
+}
+
+func rep(gen, prefix, unit string, count int, suffix string) Input {
+	return Input{Gen: gen, Prefix: prefix, Unit: unit, Count: count, Suffix: suffix}
+}
+
+func (in Input) Bytes() []byte {
+	if in.Count > 0 || in.Prefix != "" || in.Unit != "" {
+		return []byte(in.Prefix + strings.Repeat(in.Unit, in.Count) + in.Suffix)
+	}
+	b, err := base64.StdEncoding.DecodeString(in.B64)
+	if err != nil {
+		panic(err)
+	}
+	return b
+}
+
+// ---------------------------------------------------------------------------------------------
+// child mode: parse the inputs given on stdin (one JSON Input per line) in THIS process, one JSON
+// result line each. A fatal error (stack overflow) kills the child; the parent sees which input did it.
+
+type childResult struct {
+	Out asp.VerifC19Outcome `json:"out"`
+	Ms  int64               `json:"ms"`
+}
+
+func child() {
+	gologging.SetLevel(gologging.CRITICAL, "plz")
+	r := bufio.NewReaderSize(os.Stdin, 1<<20)
+	w := bufio.NewWriter(os.Stdout)
+	for {
+		line, err := r.ReadBytes('\n')
+		if len(bytes.TrimSpace(line)) > 0 {
+			var in Input
+			if e := json.Unmarshal(line, &in); e != nil {
+				panic(e)
+			}
+			data := in.Bytes()
+			t := time.Now()
+			out := asp.VerifC19Parse(data)
+			js, _ := json.Marshal(childResult{Out: out, Ms: time.Since(t).Milliseconds()})
+			w.Write(js)
+			w.WriteByte('\n')
+			w.Flush()
+		}
+		if err != nil {
+			return
+		}
+	}
+}
+
+type isoResult struct {
+	Done    bool // the child answered
+	Res     childResult
+	Crash   string // "" | "stack-overflow" | "timeout" | "other"
+	Stderr  string
+	Elapsed time.Duration
+}
+
+// isolated parses every input in a child process (restarted after a crash).
+func isolated(ins []Input, perInput time.Duration) []isoResult {
+	out := make([]isoResult, len(ins))
+	i := 0
+	for i < len(ins) {
+		cmd := exec.Command(os.Args[0], "c19-child")
+		stdin, _ := cmd.StdinPipe()
+		stdout, _ := cmd.StdoutPipe()
+		var stderr bytes.Buffer
+		cmd.Stderr = &limitedWriter{w: &stderr, n: 1 << 16}
+		if err := cmd.Start(); err != nil {
+			panic(err)
+		}
+		lines := make(chan []byte)
+		go func() {
+			rd := bufio.NewReaderSize(stdout, 1<<16)
+			for {
+				l, err := rd.ReadBytes('\n')
+				if len(l) > 0 {
+					lines <- l
+				}
+				if err != nil {
+					close(lines)
+					return
+				}
+			}
+		}()
+		alive := true
+		for alive && i < len(ins) {
+			js, _ := json.Marshal(ins[i])
+			t := time.Now()
+			if _, err := stdin.Write(append(js, '\n')); err != nil {
+				alive = false
+			}
+			select {
+			case l, ok := <-lines:
+				if ok && json.Unmarshal(l, &out[i].Res) == nil {
+					out[i].Done = true
+					out[i].Elapsed = time.Since(t)
+					i++
+					continue
+				}
+				alive = false
+			case <-time.After(perInput):
+				out[i].Crash = "timeout"
+				cmd.Process.Kill()
+				alive = false
+			}
+		}
+		stdin.Close()
+		cmd.Process.Kill()
+		for range lines {
+		}
+		cmd.Wait()
+		if i < len(ins) && !out[i].Done {
+			out[i].Stderr = stderr.String()
+			if out[i].Crash == "" {
+				if strings.Contains(out[i].Stderr, "stack overflow") {
+					out[i].Crash = "stack-overflow"
+				} else {
+					out[i].Crash = "other"
+				}
+			}
+			i++
+		}
+	}
+	return out
+}
+
+type limitedWriter struct {
+	w io.Writer
+	n int
+}
+
+func (l *limitedWriter) Write(p []byte) (int, error) {
+	if l.n > 0 {
+		q := p
+		if len(q) > l.n {
+			q = q[:l.n]
+		}
+		l.w.Write(q)
+		l.n -= len(q)
+	}
+	return len(p), nil
+}
+
+// ---------------------------------------------------------------------------------------------
+// generators
+
+type gen struct {
+	r     *lib.Rng
+	depth int
+}
+
+var identPool = []string{"x", "y", "name", "srcs", "deps", "_priv", "CONFIG", "go_library", "a1", "f", "r", "rf", "in_", "is_ok", "notx", "lambda_", "é", "变量", "π2"}
+var kwPool = []string{"pass", "continue", "break", "def", "for", "if", "return", "raise", "assert", "else", "elif", "in", "not", "is", "and", "or", "lambda", "None", "True", "False"}
+
+func (g *gen) ident() string { return lib.Pick(g.r, identPool) }
+
+func (g *gen) str() string {
+	bodies := []string{"", "a", "//src:lib", "x y", "it's", `say \"hi\"`, `a\nb`, `a\\`, "{x}", "{{x}}", "${x}", "{", "}", "{x.y}", "a{x}b{y}c", "$", "é", `\q`, "#no comment"}
+	b := lib.Pick(g.r, bodies)
+	switch g.r.Intn(9) {
+	case 0:
+		return "'" + strings.ReplaceAll(b, "'", `\'`) + "'"
+	case 1:
+		return `"""` + b + "\n more " + `"""`
+	case 2:
+		return "'''" + b + "'''"
+	case 3:
+		return `r"` + strings.ReplaceAll(b, `"`, "") + `"`
+	case 4, 5:
+		return `f"` + strings.ReplaceAll(b, `\"`, "") + `"`
+	case 6:
+		return `f'` + strings.ReplaceAll(b, "'", "") + `'`
+	default:
+		return `"` + b + `"`
+	}
+}
+
+func (g *gen) exprList(min, max int) string {
+	n := g.r.Range(min, max)
+	parts := make([]string, n)
+	for i := range parts {
+		parts[i] = g.expr()
+	}
+	s := strings.Join(parts, ", ")
+	if n > 0 && g.r.Chance(1, 4) {
+		s += ","
+	}
+	return s
+}
+
+func (g *gen) callArgs() string {
+	n := g.r.Range(0, 4)
+	parts := make([]string, n)
+	for i := range parts {
+		if g.r.Chance(1, 2) {
+			sp := lib.Pick(g.r, []string{" = ", "=", " =", "  =  "})
+			parts[i] = g.ident() + sp + g.expr()
+		} else {
+			parts[i] = g.expr()
+		}
+	}
+	return strings.Join(parts, lib.Pick(g.r, []string{", ", ",", ",\n    "}))
+}
+
+func (g *gen) names() string {
+	n := g.r.Range(1, 3)
+	parts := make([]string, n)
+	for i := range parts {
+		parts[i] = g.ident()
+	}
+	return strings.Join(parts, ", ")
+}
+
+func (g *gen) expr() string {
+	g.depth++
+	defer func() { g.depth-- }()
+	k := g.r.Intn(22)
+	if g.depth > 4 {
+		k = g.r.Intn(6)
+	}
+	switch k {
+	case 0, 1:
+		return lib.Pick(g.r, []string{"0", "1", "42", "-7", "0o17", "007", "123456789012345678", "1234567890123456789", "-123456789012345678", "99999999999999999999999"})
+	case 2, 3:
+		return g.str()
+	case 4:
+		return g.ident()
+	case 5:
+		return lib.Pick(g.r, []string{"True", "False", "None"})
+	case 6:
+		return g.str() + " " + g.str()
+	case 7:
+		return g.str() + "\n    " + g.str() + " " + g.str()
+	case 8:
+		return "[" + g.exprList(0, 3) + "]"
+	case 9:
+		return "(" + g.exprList(0, 3) + ")"
+	case 10:
+		n := g.r.Range(0, 3)
+		parts := make([]string, n)
+		for i := range parts {
+			parts[i] = g.expr() + ": " + g.expr()
+		}
+		return "{" + strings.Join(parts, ", ") + "}"
+	case 11:
+		c := "[" + g.expr() + " for " + g.names() + " in " + g.expr()
+		if g.r.Chance(1, 3) {
+			c += " for " + g.names() + " in " + g.expr()
+		}
+		if g.r.Chance(1, 2) {
+			c += " if " + g.expr()
+		}
+		return c + "]"
+	case 12:
+		return "{" + g.expr() + ": " + g.expr() + " for " + g.names() + " in " + g.expr() + "}"
+	case 13:
+		return g.ident() + "(" + g.callArgs() + ")"
+	case 14:
+		return g.ident() + "." + g.ident() + "(" + g.callArgs() + ")" + lib.Pick(g.r, []string{"", ".y", "[0]", "(1)"})
+	case 15:
+		return g.expr() + lib.Pick(g.r, []string{"[0]", "[1:]", "[:2]", "[:]", "[1:2]", "[x][y]", "[-1]", "[::]", "[1:2:3]"})
+	case 16:
+		op := lib.Pick(g.r, []string{"+", "-", "*", "/", "//", "%", "<", ">", "and", "or", "is", "is not", "in", "not in", "==", "!=", ">=", "<=", "|", "not", "&", "**", "<>"})
+		return g.expr() + " " + op + " " + g.expr()
+	case 17:
+		return lib.Pick(g.r, []string{"-", "not ", "- ", "not not "}) + g.expr()
+	case 18:
+		return g.expr() + " if " + g.expr() + " else " + g.expr()
+	case 19:
+		return "lambda " + lib.Pick(g.r, []string{"", "x", "x, y", "x=1", "x, y=2,"}) + ": " + g.expr()
+	case 20:
+		return "(" + g.expr() + ")"
+	default:
+		return g.str() + ".format(" + g.callArgs() + ")"
+	}
+}
+
+func (g *gen) block(ind string, inFor, inDef bool, n int) string {
+	var b strings.Builder
+	for i := 0; i < n; i++ {
+		b.WriteString(g.stmt(ind, inFor, inDef))
+	}
+	return b.String()
+}
+
+func (g *gen) stmt(ind string, inFor, inDef bool) string {
+	g.depth++
+	defer func() { g.depth-- }()
+	k := g.r.Intn(20)
+	if g.depth > 3 {
+		k = g.r.Intn(9)
+	}
+	nl := "\n"
+	if g.r.Chance(1, 12) {
+		nl = lib.Pick(g.r, []string{"\n\n", "  # comment\n", "\r\n", "\n" + ind + "# c\n", "\n   \n"})
+	}
+	in2 := ind + lib.Pick(g.r, []string{"    ", "  ", " "})
+	switch k {
+	case 0, 1, 2:
+		return ind + g.ident() + lib.Pick(g.r, []string{" = ", "=", " += "}) + g.expr() + nl
+	case 3:
+		return ind + g.ident() + "(" + g.callArgs() + ")" + nl
+	case 4:
+		return ind + g.ident() + "." + g.ident() + "(" + g.callArgs() + ")" + nl
+	case 5:
+		return ind + g.ident() + "[" + g.expr() + "]" + lib.Pick(g.r, []string{" = ", " += ", " -= "}) + g.expr() + nl
+	case 6:
+		return ind + g.names() + ", " + g.ident() + " = " + g.expr() + nl
+	case 7:
+		return ind + lib.Pick(g.r, []string{"pass", "assert " + g.expr(), "assert " + g.expr() + ", " + g.str(), "raise " + g.expr(), g.expr(), g.ident()}) + nl
+	case 8:
+		if inFor || g.r.Chance(1, 6) {
+			return ind + lib.Pick(g.r, []string{"continue", "break"}) + nl
+		}
+		if inDef || g.r.Chance(1, 6) {
+			return ind + "return" + lib.Pick(g.r, []string{"", " " + g.expr(), " " + g.expr() + ", " + g.expr(), " " + g.expr() + ","}) + nl
+		}
+		return ind + "pass" + nl
+	case 9, 10, 11:
+		s := ind + "if " + g.expr() + ":" + nl + g.block(in2, inFor, inDef, g.r.Range(1, 3))
+		for g.r.Chance(1, 3) {
+			s += ind + "elif " + g.expr() + ":\n" + g.block(in2, inFor, inDef, g.r.Range(1, 2))
+		}
+		if g.r.Chance(1, 2) {
+			s += ind + "else:\n" + g.block(in2, inFor, inDef, g.r.Range(1, 2))
+		}
+		return s
+	case 12, 13:
+		return ind + "for " + g.names() + " in " + g.expr() + ":" + nl + g.block(in2, true, inDef, g.r.Range(1, 3))
+	default:
+		n := g.r.Range(0, 4)
+		args := make([]string, n)
+		for i := range args {
+			a := g.ident()
+			if g.r.Chance(1, 2) {
+				a += lib.Pick(g.r, []string{":str", ": int", ":list|dict", ": bool | function", ":config", ":float"})
+			}
+			if g.r.Chance(1, 4) {
+				a += lib.Pick(g.r, []string{"&alias", " & a1 & a2"})
+			}
+			if g.r.Chance(1, 2) {
+				a += "=" + g.expr()
+			}
+			args[i] = a
+		}
+		retType := ""
+		if g.r.Chance(1, 3) {
+			retType = " -> " + lib.Pick(g.r, []string{"str", "list", "dict", "bool", "int", "function", "config", "none", "None", "float"})
+		}
+		s := ind + "def " + g.ident() + "(" + strings.Join(args, ", ") + ")" + retType + ":" + nl
+		if g.r.Chance(1, 3) {
+			s += in2 + lib.Pick(g.r, []string{`"""doc"""`, `"doc"`, "'''multi\n    line'''"}) + "\n"
+			if g.r.Chance(1, 4) {
+				return s
+			}
+		}
+		return s + g.block(in2, false, true, g.r.Range(1, 3))
+	}
+}
+
+func program(r *lib.Rng) []byte {
+	g := &gen{r: r}
+	return []byte(g.block("", false, false, r.Range(1, 4)))
+}
+
+var mutBytes = []byte(" \n\t\r\x00\"'\\#()[]{}:,.=+-*/%<>!|&0123456789abfrxo_\x80\xc3\xa9\xe5\xff{}$")
+
+func mutate(r *lib.Rng, data []byte) []byte {
+	out := append([]byte{}, data...)
+	n := r.Range(1, 3)
+	for i := 0; i < n; i++ {
+		if len(out) == 0 {
+			out = append(out, lib.Pick(r, mutBytes))
+			continue
+		}
+		p := r.Intn(len(out))
+		switch r.Intn(9) {
+		case 0: // delete a byte
+			out = append(out[:p], out[p+1:]...)
+		case 1: // insert a byte
+			out = append(out[:p], append([]byte{lib.Pick(r, mutBytes)}, out[p:]...)...)
+		case 2: // replace a byte
+			out[p] = lib.Pick(r, mutBytes)
+		case 3: // truncate
+			out = out[:p]
+		case 4: // duplicate a span
+			q := min(len(out), p+r.Range(1, 12))
+			out = append(out[:q], append(append([]byte{}, out[p:q]...), out[q:]...)...)
+		case 5: // delete a span (a token or two)
+			q := min(len(out), p+r.Range(1, 8))
+			out = append(out[:p], out[q:]...)
+		case 6: // insert a keyword or operator
+			w := " " + lib.Pick(r, append(kwPool, "==", "+=", "//", "->", "not in", "is not", "f\"", "r'", "\"\"\"", "'''")) + " "
+			out = append(out[:p], append([]byte(w), out[p:]...)...)
+		case 7: // change indentation of a line
+			if q := bytes.IndexByte(out[p:], '\n'); q >= 0 {
+				ins := lib.Pick(r, []string{" ", "  ", "    ", "\t"})
+				out = append(out[:p+q+1], append([]byte(ins), out[p+q+1:]...)...)
+			}
+		default: // swap two spans
+			q := r.Intn(len(out))
+			if p > q {
+				p, q = q, p
+			}
+			l := min(r.Range(1, 6), q-p, len(out)-q)
+			if l > 0 {
+				tmp := append([]byte{}, out[p:p+l]...)
+				copy(out[p:p+l], out[q:q+l])
+				copy(out[q:q+l], tmp)
+			}
+		}
+	}
+	return out
+}
+
+func randomBytes(r *lib.Rng) []byte {
+	n := r.Range(0, 40)
+	out := make([]byte, n)
+	full := r.Chance(1, 4)
+	for i := range out {
+		if full {
+			out[i] = byte(r.Intn(256))
+		} else {
+			out[i] = lib.Pick(r, mutBytes)
+		}
+	}
+	return out
+}
+
+// the fixed adversarial stream: boundary inputs of the lexer and of the string / f-string code
+var adversarial = []string{
+	"", "\n", "\x00", "\x00\x00", "x\x00", "x = 1\x00y = 2\n", "(\x00", "x = (1,\x00 2)\n", "x\x00\x00\x00", "\x00\n\x00\n",
+	"x", "x ", "x =", "x = ", "x = 1", "x = 1\n", "\n\nx = 1\n\n\n", "  x = 1\n", "#", "# c", "#\x00", "x = 1 # c\x00d\n",
+	`x = "`, `x = "\`, `x = "\"`, `x = "a`, `x = 'a"`, `x = """`, `x = """a`, `x = """a""`, `x = """a"""`, `x = """a\`, "x = '''a\n\\\n'''", `x = ""`, `x = """"`, `x = """""`, `x = """"""`,
+	`x = r"\"`, `x = r"\\"`, `x = r'a\'`, `x = r`, `x = r"`, `x = f`, `x = f"`, `x = f""`, `x = rf"a"`, `x = fr"a"`, `r"`, `f'`, "r", "f", "r\x00", "f\x00",
+	`x = f"{"`, `x = f"{a"`, `x = f"}"`, `x = f"{{"`, `x = f"{{}}"`, `x = f"{}"`, `x = f"{a}"`, `x = f"{a}{b}"`, `x = f"{{a}}"`, `x = f"{{{a}}}"`, `x = f"${a}"`, `x = f"$${a}"`, `x = f"{a.b.c}"`, `x = f"{a}}"`, `x = f"}{"`, `x = f"{{{"`, `x = f"{é}"`, "x = f\"\xff{a}\"", `x = f"a{"`, `x = f"{a}{"`,
+	`x = "a" f"b"`, `x = f"b" "a"`, `x = f"a" f"b"`, `x = f"{a}" f"b"`, `x = f"a" f"{b}"`, `x = "a" "b"`, `x = "a" f"{b}"`, `x = "a" f"b" "c" f"{d}" 'e'`, `x = "a" "b"[0]`, `x = "a" f"b".c()`, `x = "" ""`, `x = "" f""`, `x = f"" f""`, `x = f"" ""`, "x = ('a'\n 'b'\n f'c')\n",
+	"x = 0", "x = 00", "x = 0o", "x = 0o17", "x = 0o8", "x = 0x1F", "x = 1e5", "x = 1.5", "x = -", "x = -1", "x = - 1", "x = --1", "x = 1-1", "x = 1 -1", "x = 123456789012345678", "x = 1234567890123456789", "x = -12345678901234567", "x = -123456789012345678",
+	"x = " + strings.Repeat("9", 100), "x = 0o" + strings.Repeat("7", 30),
+	"if x:\n  y = 1\n z = 2\n", "if x:\n    y = 1\n  z = 2\n", "if x:\n  y\n", "if x:\n  y", "if x:\n", "if x:", "if x:\n\n", "if x:\n  if y:\n    z\n", "if x:\n  if y:\n    z\nw\n", "if x:\n  if y:\n    z\n  w\n", "if x:\n  if y:\n    z\n w\n",
+	"if x:\n  y = (1,\n2)\n", "x = (\n  1,\n    2,\n)\n", "x = [\n# c\n1]\n", "if x:\n  y\n  # c\nz\n", "if x:\n  y\n# c\n  z\n", "if x:\n\ty\n", "\tx\n", "x = 1\t\n", "if x:\n  y\n   \n  z\n", "if x:\r\n  y\r\n", "\r", "\r\r\n", "x = 1\r",
+	"def f(", "def f(a", "def f(a:", "def f(a:str", "def f(a:str|", "def f(a&", "def f(a&b", "def f(a&b=", "def f(a=", "def f():", "def f():\n", "def f():\n  pass", "def f() ->", "def f() -> str", "def f() -> str:\n  pass\n", "def f() - > str:\n  pass\n", "def f()-x:\n pass\n", "def f():\n  '''doc'''\n", "def f():\n  '''doc'''\n  pass\n", "def", "def 1", "def f", "def f(a:foo):\n  pass\n", "def f(a:str&b&c=1, d:list|dict=[]) -> none:\n  return\n",
+	"for", "for x", "for x in", "for x in y", "for x in y:", "for x in y:\n", "for x, in y:\n  pass\n", "for x,y in z:\n  continue\n", "continue", "break\n", "def f():\n  continue\n", "for x in y:\n  def g():\n    break\n",
+	"return", "return 1", "return 1,", "return 1, 2\n", "return ,\n", "raise", "raise x", "assert", "assert x,", "assert x, 'm'\n", "pass", "pass x\n", "pass\n", "pass = 1\n", "None = 1\n", "True\n", "lambda = 2\n", "x, y", "x, y = 1, 2\n", "x, = 1\n", "x[", "x[1", "x[1]", "x[1] = 2\n", "x[1] += 2\n", "x[1] -= 2\n", "x[1][2] = 3\n", "x.", "x.y", "x.y()\n", "x.y.z\n", "x(", "x()", "x(a=", "x(a=1, a=2)\n", "x(a =1, b= 2, c  =  3)\n", "x(a==1)\n", "x(a\n=1)\n", "x(a,\n  b = 2)\n", "x(1 = 2)\n", "x +", "x += ", "x -= 1\n", "x == 1\n", "x =\n",
+	"x = [", "x = [1", "x = [1,", "x = [1,]", "x = [,]\n", "x = [1 for", "x = [1 for y", "x = [1 for y in", "x = [1 for y in z", "x = [1, 2 for y in z]\n", "x = [for y in z]\n", "x = [1 for y in z for a in b if c]\n", "x = [1 for y in z if a if b]\n", "x = {", "x = {1", "x = {1:", "x = {1:2", "x = {1:2,", "x = {1:2 for", "x = {1:2, 3:4 for a in b}\n", "x = {1}\n", "x = (1]\n", "x = [1)\n", "x = {1:2]\n", "x = )\n", "x = ]\n", "x = }\n", ")", "]]]]", "}{", "x = (1\ny = 2\n", "x = 1)\ny = (\n",
+	"x = a[", "x = a[:", "x = a[:]", "x = a[::]\n", "x = a[1:", "x = a[1:2", "x = a[1:2:3]\n", "x = a[:2]\n", "x = a[1:]\n", "x = a[b][c](d).e\n", "x = a.b.c(d)(e).f\n", "x = a.1\n", "x = a..b\n", "x = a.(b)\n",
+	"x = not", "x = not in\n", "x = a not\n", "x = a not b\n", "x = a not in b\n", "x = a is\n", "x = a is not\n", "x = a is not b\n", "x = a is not not b\n", "x = not a\n", "x = not not a\n", "x = a and not b\n", "x = -a\n", "x = - -a\n", "x = a if\n", "x = a if b\n", "x = a if b else\n", "x = a if b else c if d else e\n", "x = a or b and c == d != e < f > g <= h >= i | j in k\n", "x = a & b\n", "x = a ** b\n", "x = a <> b\n", "x = a ! b\n", "x = !a\n", "x = a === b\n", "x = a // b / c % d\n", "x = a / / b\n",
+	"x = lambda", "x = lambda:", "x = lambda: 1\n", "x = lambda x", "x = lambda x,: 1\n", "x = lambda x=: 1\n", "x = lambda x=1, y: x\n", "x = lambda (x): 1\n",
+	"@", "x = $", "x = `a`", "x = a ? b\n", "x = ~a\n", "x = a; b\n", "x = a \\\n b\n", "é = 1\n", "x = é\n", "变量 = 1\n", "x\xc3 = 1\n", "\xff", "\x80x = 1\n", "x\xe2\x80\x8b = 1\n", "x = \xf0\x9f\x98\x80\n", "a\xcc\x81 = 1\n", "x = '\xff\xfe'\n", "x٣ = 1\n", "\xed\xa0\x80 = 1\n", "\xc0\x80 = 1\n", "\xf4\x90\x80\x80\n", "x\xe5\x8f",
+}
+
+func repoFiles(repo string) [][]byte {
+	var paths []string
+	filepath.Walk(repo, func(p string, info os.FileInfo, err error) error {
+		if err != nil {
+			return nil
+		}
+		if info.IsDir() {
+			if n := info.Name(); n == ".git" || n == "plz-out" || n == "node_modules" {
+				return filepath.SkipDir
+			}
+			return nil
+		}
+		n := info.Name()
+		if n == "BUILD" || n == "BUILD.plz" || strings.HasSuffix(n, ".build_defs") || strings.HasSuffix(n, ".build") {
+			if info.Size() > 0 && info.Size() < 200000 {
+				paths = append(paths, p)
+			}
+		}
+		return nil
+	})
+	sort.Strings(paths)
+	var out [][]byte
+	for _, p := range paths {
+		if b, err := os.ReadFile(p); err == nil {
+			out = append(out, b)
+		}
+	}
+	return out
+}
+
+// window cuts a run of whole lines of at most max bytes out of a file
+func window(r *lib.Rng, data []byte, max int) []byte {
+	if len(data) <= max {
+		return data
+	}
+	start := r.Intn(len(data) - max/2)
+	if i := bytes.IndexByte(data[start:], '\n'); i >= 0 && start > 0 {
+		start += i + 1
+	}
+	end := min(len(data), start+r.Range(max/4, max))
+	if i := bytes.LastIndexByte(data[start:end], '\n'); i > 0 {
+		end = start + i + 1
+	}
+	return data[start:end]
+}
+
+// ---------------------------------------------------------------------------------------------
+// Coq printing
+
+func coqZ(x int) string {
+	if x < 0 {
+		return "(" + strconv.Itoa(x) + ")%Z"
+	}
+	return strconv.Itoa(x) + "%Z"
+}
+
+// coqBytes prints a byte string: printable ones as (s "..."), others as (sx "...") with \hh escapes
+func coqBytes(x string) string {
+	plain := true
+	for i := 0; i < len(x); i++ {
+		if x[i] < 0x20 || x[i] > 0x7e || x[i] == '\\' {
+			plain = false
+			break
+		}
+	}
+	if plain {
+		return lib.Str(x)
+	}
+	var b strings.Builder
+	b.WriteString(`(sx "`)
+	for i := 0; i < len(x); i++ {
+		c := x[i]
+		switch {
+		case c == '"':
+			b.WriteString(`""`)
+		case c < 0x20 || c > 0x7e || c == '\\':
+			fmt.Fprintf(&b, "\\%02x", c)
+		default:
+			b.WriteByte(c)
+		}
+	}
+	b.WriteString(`")`)
+	return b.String()
+}
+
+func letters(data []byte) []uint32 {
+	seen := map[rune]bool{}
+	var out []uint32
+	for i := range data {
+		if data[i] < utf8.RuneSelf {
+			continue
+		}
+		rn, w := utf8.DecodeRune(data[i:])
+		if rn == utf8.RuneError && w <= 1 {
+			continue
+		}
+		if (unicode.IsLetter(rn) || unicode.IsDigit(rn)) && !seen[rn] {
+			seen[rn] = true
+			out = append(out, uint32(rn))
+		}
+	}
+	return out
+}
+
+func coqCase(data []byte, toks []asp.VerifC19Token, lo, po asp.VerifC19Outcome) string {
+	var lobs, pobs string
+	switch lo.Kind {
+	case "ok":
+		items := make([]string, len(toks))
+		for i, t := range toks {
+			items[i] = "(" + coqZ(t.Type) + ", " + coqBytes(t.Value) + ", " + lib.N(uint64(t.Pos)) + ")"
+		}
+		lobs = lib.App("OLexOk", lib.List(items))
+	case "positioned":
+		lobs = lib.App("OLexErr", lib.N(uint64(lo.N)), lib.N(uint64(lo.Offset)))
+	default:
+		lobs = "OLexOther"
+	}
+	switch po.Kind {
+	case "ok":
+		pobs = lib.App("OParseOk", lib.N(uint64(po.N)))
+	case "positioned":
+		pobs = lib.App("OParseErr", lib.N(uint64(po.Offset)))
+	default:
+		pobs = "OParseOther"
+	}
+	return lib.App("Case", coqBytes(string(data)), lib.NList(letters(data)), lobs, pobs)
+}
+
+// ---------------------------------------------------------------------------------------------
+
+func sizeBucket(n int) string {
+	switch {
+	case n == 0:
+		return "0"
+	case n < 16:
+		return "1-15"
+	case n < 64:
+		return "16-63"
+	case n < 256:
+		return "64-255"
+	case n < 1024:
+		return "256-1023"
+	case n < 16384:
+		return "1k-16k"
+	default:
+		return ">=16k"
+	}
+}
+
+func errClass(msg string) string {
+	m := msg
+	if i := strings.Index(m, "runtime error: "); i >= 0 {
+		m = m[i+len("runtime error: "):]
+		// drop the numbers so that one panic site is one class
+		var b strings.Builder
+		for _, c := range m {
+			if c >= '0' && c <= '9' {
+				continue
+			}
+			if c == ' ' || c == ':' || c == '[' || c == ']' {
+				c = '-'
+			}
+			b.WriteRune(c)
+		}
+		s := strings.Trim(strings.ReplaceAll(b.String(), "--", "-"), "-")
+		if len(s) > 50 {
+			s = s[:50]
+		}
+		return "internal-runtime-error-" + s
+	}
+	return "unpositioned-error"
+}
+
+func main() {
+	if len(os.Args) > 1 && os.Args[1] == "c19-child" {
+		child()
+		return
+	}
+	lib.Main("C19", func(c *lib.Ctx) {
+		gologging.SetLevel(gologging.CRITICAL, "plz")
+		c.Model("From PlzV Require Import Model.C19.", "C19.case", "C19.check")
+		c.Rule("inputs: (a) programs from a grammar of the BUILD language (statements, defs with typed/aliased/default arguments, for/if/elif/else, " +
+			"strings in every quoting and prefix form, f-strings, adjacent literals, comprehensions, lambdas, slices, operators incl. 'not in'/'is not'), raw and after 1-3 byte/span/keyword/indentation mutations; " +
+			"(b) whole files and line windows of the repository's own BUILD / build_defs files, raw and mutated; (c) random bytes over a lexer-relevant alphabet and over all 256 values, incl. NULs; " +
+			"(d) a fixed adversarial list (NUL placement, unterminated and triple-quoted strings, f-string braces, adjacent string/f-string literals, integer limits, indentation, every production cut short, UTF-8 edge cases) and the pre-fix corpus; " +
+			"(e) nesting/repetition 10^3-10^4 deep in-process and 10^6-10^7 deep in a child process. Each input is lexed (real lexer alone) and parsed (Parser.ParseData); " +
+			"model cases compare the whole token stream (type, value, position) or the lexer error position, and the parse result kind, statement count or error position. " +
+			"distinct = distinct byte strings; non-trivial = at least 3 tokens or a parse error")
+
+		repo := os.Getenv("VERIF_REPO")
+		if repo == "" {
+			repo = "/repo"
+		}
+		verif := os.Getenv("VERIF_DIR")
+		if verif == "" {
+			verif = "/verif"
+		}
+
+		// one evaluation: implementation run + oracle (+ model case when withModel)
+		eval := func(in Input, withModel bool) {
+			data := in.Bytes()
+			t0 := time.Now()
+			po := asp.VerifC19Parse(data)
+			el := time.Since(t0)
+			toks, lo := asp.VerifC19Lex(data)
+			sum := sha1.Sum(data)
+			key := string(sum[:])
+			nontrivial := len(toks) >= 3 || po.Kind != "ok"
+			js := map[string]any{"input": in, "parse": po, "lex": lo}
+			if withModel {
+				c.Case(coqCase(data, toks, lo, po), in, key, nontrivial)
+			} else {
+				c.Eval(js, key, nontrivial)
+			}
+			c.Hist("generator", in.Gen)
+			c.Hist("size", sizeBucket(len(data)))
+			c.Hist("parse-outcome", po.Kind)
+			c.Hist("lex-outcome", lo.Kind)
+			// ---- the property oracle (no model involved)
+			c.Oracle()
+			switch po.Kind {
+			case "ok", "positioned":
+				if strings.Contains(po.Msg, "runtime error") {
+					c.Fail(errClass(po.Msg), "ParseData reported a Go runtime error: "+po.Msg, in)
+				}
+			default:
+				c.Fail(errClass(po.Msg), "ParseData returned an error without a source position: "+po.Msg, in)
+			}
+			if lo.Kind != "ok" && lo.Kind != "positioned" {
+				c.Fail("lexer-"+errClass(lo.Msg), "the lexer alone failed without a position: "+lo.Msg, in)
+			}
+			if po.Kind == "positioned" && (po.Offset < 0 || po.Offset > len(data)+2) {
+				c.Fail("error-position-outside-file", fmt.Sprintf("error position %d outside the %d-byte file", po.Offset, len(data)), in)
+			}
+			if el > 20*time.Second && len(data) < 100000 {
+				c.Fail("parse-too-slow", fmt.Sprintf("parsing %d bytes took %v", len(data), el), in)
+			}
+		}
+
+		var replay Input
+		if c.ReadReplay(&replay) {
+			if replay.Count > 100000 {
+				res := isolated([]Input{replay}, 10*time.Minute)
+				c.Oracle()
+				c.Eval(replay, "replay", true)
+				if res[0].Crash != "" {
+					c.Fail("replayed-crash-"+res[0].Crash, "the parser process died: "+res[0].Crash, replay)
+				}
+				return
+			}
+			eval(replay, true)
+			return
+		}
+
+		// (d) adversarial list + corpus: all with a model case
+		for _, a := range adversarial {
+			eval(mk("adversarial", []byte(a)), true)
+		}
+		corpus, _ := filepath.Glob(filepath.Join(verif, "corpus", "C19", "*"))
+		sort.Strings(corpus)
+		for _, p := range corpus {
+			if b, err := os.ReadFile(p); err == nil {
+				eval(mk("corpus", b), true)
+				for _, line := range bytes.Split(b, []byte("\n")) {
+					eval(mk("corpus", line), true)
+				}
+			}
+		}
+		c.Note("adversarial list: %d inputs; corpus files: %d", len(adversarial), len(corpus))
+
+		// (a) grammar programs, raw and mutated
+		nprog := c.Scale(260, 5000)
+		for i := 0; i < nprog; i++ {
+			r := c.Rng.Fork()
+			p := program(r)
+			small := len(p) <= 700
+			eval(mk("grammar", p), small)
+			for j := 0; j < 2; j++ {
+				m := mutate(r, p)
+				eval(mk("grammar-mutated", m), small && j == 0)
+			}
+			for j := 0; j < c.Scale(6, 10); j++ {
+				eval(mk("grammar-mutated", mutate(r, p)), false)
+			}
+		}
+
+		// (b) repository BUILD files
+		files := repoFiles(repo)
+		c.Note("repository BUILD/build_defs files: %d", len(files))
+		for i, f := range files {
+			eval(mk("repo-file", f), false)
+			if i%7 == 0 {
+				r := c.Rng.Fork()
+				eval(mk("repo-file-mutated", mutate(r, f)), false)
+			}
+		}
+		nwin := c.Scale(200, 4000)
+		for i := 0; i < nwin && len(files) > 0; i++ {
+			r := c.Rng.Fork()
+			w := window(r, lib.Pick(r, files), 500)
+			eval(mk("repo-window", w), i%2 == 0)
+			eval(mk("repo-window-mutated", mutate(r, w)), true)
+			for j := 0; j < c.Scale(5, 10); j++ {
+				eval(mk("repo-window-mutated", mutate(r, w)), false)
+			}
+		}
+
+		// (c) random bytes
+		nrand := c.Scale(250, 5000)
+		for i := 0; i < nrand; i++ {
+			r := c.Rng.Fork()
+			eval(mk("random-bytes", randomBytes(r)), true)
+			for j := 0; j < c.Scale(10, 30); j++ {
+				eval(mk("random-bytes", randomBytes(r)), false)
+			}
+		}
+
+		// (e) depth / repetition, in-process (10^3 - 10^4); a model case only for a shallow instance
+		type shape struct{ prefix, unit, suffix string }
+		shapes := []shape{
+			{"x = ", "(", "\n"}, {"x = ", "[", "\n"}, {"x = ", "{1:", "\n"}, {"x = ", "f(", "\n"}, {"x = ", "(", "1" + strings.Repeat(")", 3000) + "\n"},
+			{"x = 1", " + 1", "\n"}, {"x = 1", " if 1 else 1", "\n"}, {"x = a", ".a", "\n"}, {"x = a", "(1)", "\n"}, {"x = a", "[1]", "\n"},
+			{"x = ", "'a' ", "\n"}, {"x = ", "f'{a}' ", "\n"}, {"x = ", "lambda: ", "1\n"}, {"x = ", "not ", "1\n"}, {"x = ", "-", "1\n"},
+			{"", "\n", "x = 1\n"}, {"", "\r", "x = 1\n"}, {"", "#c\n", "x = 1\n"}, {"x = (", "\n", "1)\n"}, {"x = (", "#\n", "1)\n"}, {"", " ", "x\n"},
+			{"x = [", "1, ", "]\n"}, {"f(", "a=1, ", ")\n"}, {"x = {", "1:2, ", "}\n"}, {"", "x = 1\n", ""}, {"x = '", "a", "'\n"}, {"x = '", `\\`, "'\n"}, {"x", "y", " = 1\n"}, {"x = 1", "0", "\n"},
+			{"x = f'", "{a}", "'\n"}, {"x = f'", "{", "'\n"}, {"x = f'", "{{", "'\n"}, {"x = f'{", "a.", "}'\n"}, {"x = ", "\x00", "\n"}, {"def f(", "a:str|int&b=1, ", "):\n pass\n"},
+		}
+		for _, sh := range shapes {
+			eval(rep("repeat-small", sh.prefix, sh.unit, 7, strings.Replace(sh.suffix, strings.Repeat(")", 3000), strings.Repeat(")", 7), 1)), true)
+			for _, n := range []int{1000, c.Scale(3000, 10000)} {
+				eval(rep("repeat-deep", sh.prefix, sh.unit, n, sh.suffix), false)
+			}
+		}
+		// nested blocks: indentation grows by one column per level
+		for _, n := range []int{6, c.Scale(300, 1000)} {
+			var b strings.Builder
+			for i := 0; i < n; i++ {
+				b.WriteString(strings.Repeat(" ", i) + "if x:\n")
+			}
+			b.WriteString(strings.Repeat(" ", n) + "pass\n")
+			eval(mk("nested-blocks", []byte(b.String())), n < 10)
+		}
+
+		// (e') the same shapes far deeper, in a child process: a fatal error there kills only the child
+		big := []Input{
+			rep("isolated-deep", "x = ", "(", 1200000, "\n"),
+			rep("isolated-deep", "", "\r", 12000000, "x = 1\n"),
+		}
+		if c.Thor {
+			big = append(big,
+				rep("isolated-deep", "x = ", "[", 1200000, "\n"),
+				rep("isolated-deep", "x = a", ".a", 12000000, "\n"),
+				rep("isolated-deep", "x = 1", " if 1 else 1", 12000000, "\n"),
+				rep("isolated-deep", "", "\n", 12000000, "x = 1\n"),
+				rep("isolated-deep", "", "#\n", 12000000, "x = 1\n"),
+				rep("isolated-deep", "x = (", "\n", 12000000, "1)\n"),
+			)
+		}
+		// and moderately deep ones that must be fine
+		big = append(big, rep("isolated-deep", "x = ", "(", 100000, "\n"), rep("isolated-deep", "", "\n", 300000, "x = 1\n"))
+		for k, res := range isolated(big, 15*time.Minute) {
+			in := big[k]
+			c.Oracle()
+			c.Eval(map[string]any{"input": in, "crash": res.Crash, "ms": res.Res.Ms}, fmt.Sprint("big", k), true)
+			c.Hist("generator", in.Gen)
+			c.Hist("size", ">=16k")
+			switch {
+			case res.Crash == "stack-overflow":
+				lexer := strings.Count(res.Stderr, "(*lex).nextToken") > 20
+				if lexer {
+					c.Fail("fatal-stack-overflow-lexer-recursion", fmt.Sprintf("fatal error: stack overflow in lex.nextToken, which calls itself for every skipped byte/line (%q x %d)", in.Unit, in.Count), in)
+				} else {
+					c.Fail("fatal-stack-overflow-parser-recursion", fmt.Sprintf("fatal error: stack overflow in the recursive-descent parser (%q x %d)", in.Unit, in.Count), in)
+				}
+				c.Hist("parse-outcome", "fatal-stack-overflow")
+			case res.Crash != "":
+				c.Fail("parser-process-"+res.Crash, "the parsing process died or hung: "+res.Crash+" "+firstLine(res.Stderr), in)
+				c.Hist("parse-outcome", "crash-"+res.Crash)
+			default:
+				c.Hist("parse-outcome", res.Res.Out.Kind)
+				if k := res.Res.Out.Kind; k != "ok" && k != "positioned" {
+					c.Fail(errClass(res.Res.Out.Msg), "ParseData returned an error without a source position: "+res.Res.Out.Msg, in)
+				}
+			}
+		}
+	})
+}
+
+func firstLine(s string) string {
+	if i := strings.IndexByte(s, '\n'); i >= 0 {
+		return s[:i]
+	}
+	return s
 }
